@@ -160,6 +160,13 @@ type hookCause struct {
 func (h hookCause) Error() string { return h.in.Error() }
 func (h hookCause) Cause() error  { return h.in }
 
+// zeroCode is an application error type that reports code 0 itself and wraps another error.
+type zeroCode struct{ in error }
+
+func (z zeroCode) Error() string { return z.in.Error() }
+func (z zeroCode) Unwrap() error { return z.in }
+func (z zeroCode) Code() uint64  { return 0 }
+
 type ptrWrap struct{ in error }
 
 func (p *ptrWrap) Error() string { return p.in.Error() }
@@ -205,6 +212,13 @@ func buildError(r *payload.SplitMix) (error, string, uint64) {
 		}
 	}
 	depth := []int{0, 0, 1, 2, 5, 20, 50}[r.Intn(7)]
+	// an error type of the application with its own Code() that reports 0 sits above everything else:
+	// the first Code() along the chain decides, so the client must see code 0 whatever lies beneath
+	if r.Intn(8) == 0 {
+		err = zeroCode{err}
+		code = 0
+		kind += "+zero-code-on-top"
+	}
 	// runs of the same wrapper type matter as much as mixtures: in a third of the cases one species is used throughout
 	species := -1
 	if r.Intn(3) == 0 {
